@@ -487,6 +487,17 @@ fn run_history(rec: &mut Rec, rng: &mut Rng, cfg: Cfg, descr: &str) -> Sim {
     sim
 }
 
+/// nobody is left waiting: once the epoll descriptor is silent every client that connected has been accepted or
+/// refused (a client still sitting in the listener's backlog is neither served nor told to go away)
+fn nobody_waiting(rec: &mut Rec, sim: &Sim, prop: &str) {
+    if sim.w.server.is_some() && !sim.w.killed && sim.w.poll_errors.is_empty() && !sim.w.ready() {
+        let waiting: Vec<usize> = sim.w.backlog.iter().cloned().filter(|&i| sim.w.clients[i].sock.is_some()).collect();
+        if !waiting.is_empty() {
+            rec.oracle_fail(prop, &format!("clients {:?} connected but were neither accepted nor refused although the epoll descriptor is silent", waiting), &sim.w.log);
+        }
+    }
+}
+
 fn common_checks(rec: &mut Rec, sim: &mut Sim, prop: &'static str) {
     // at the end of the history the kernel model must also predict the (usually empty) ready set
     sim.w.kern_probe(rec);
@@ -499,6 +510,7 @@ fn common_checks(rec: &mut Rec, sim: &mut Sim, prop: &'static str) {
     if !sim.w.respond_errors.is_empty() {
         rec.oracle_fail("C08", &format!("respond() failed: {:?}", sim.w.respond_errors), &sim.w.log);
     }
+    nobody_waiting(rec, sim, if prop == "C08" { "C08" } else { "C10" });
     if sim.w.spurious_shutdowns > 0 {
         rec.oracle_fail("C18", &format!("{} polls reported the shutdown indication although the kill switch was never signalled", sim.w.spurious_shutdowns), &sim.w.log);
     }
@@ -566,8 +578,8 @@ fn check_yield_once(rec: &mut Rec, sim: &Sim) {
 /// aimed (seed-independent): a client has several requests yielded, `answered_before` of them are answered but the
 /// answers are still unflushed when it closes; the hang-up discards them. The connection must be held until the REST is
 /// answered too — a newcomer that reuses the descriptor number must never receive those late answers.
-pub fn c07_unflushed_answers_at_hangup(rec: &mut Rec, rng: &mut Rng, answered_before: usize, leave: usize) {
-    rec.case("routing-unflushed-at-hangup");
+pub fn c07_unflushed_answers_at_hangup(rec: &mut Rec, rng: &mut Rng, answered_before: usize, leave: usize, flush: bool) {
+    rec.case(if flush { "routing-flush-at-hangup" } else { "routing-unflushed-at-hangup" });
     rec.nontrivial();
     let mut cfg = Cfg::base("C07");
     cfg.max_clients = 4;
@@ -596,6 +608,11 @@ pub fn c07_unflushed_answers_at_hangup(rec: &mut Rec, rng: &mut Rng, answered_be
         0 => sim.w.close(rec, a),
         _ => sim.w.shutdown(rec, a, Shutdown::Both),
     }
+    if flush {
+        // the application flushes before the server has seen the hang-up: the write fails INSIDE the flush — the
+        // connection is dead, but it still has requests in flight and must be kept until they are answered
+        sim.w.flush(rec);
+    }
     sim.poll(rec);
     sim.poll(rec);
     if leave != 0 {
@@ -622,7 +639,10 @@ pub fn c07_unflushed_answers_at_hangup(rec: &mut Rec, rng: &mut Rng, answered_be
 pub fn c07(rec: &mut Rec, rng: &mut Rng, thorough: bool) {
     for answered_before in 0..=2 {
         for leave in 0..2 {
-            c07_unflushed_answers_at_hangup(rec, rng, answered_before, leave);
+            c07_unflushed_answers_at_hangup(rec, rng, answered_before, leave, false);
+            if answered_before > 0 {
+                c07_unflushed_answers_at_hangup(rec, rng, answered_before, leave, true);
+            }
         }
     }
     let n = if thorough { 4000 } else { 160 };
@@ -1278,6 +1298,8 @@ pub fn c10(rec: &mut Rec, rng: &mut Rng, thorough: bool) {
                     break;
                 }
             }
+            // every excess client has been told to go away by now (not only the first one)
+            nobody_waiting(rec, &sim, "C10");
             let live: Vec<usize> = (0..sim.w.clients.len()).filter(|&i| sim.w.clients[i].sock.is_some()).collect();
             // invariant: never more than 10 connections
             let conns = sim.w.server_fds().len().saturating_sub(2);
